@@ -113,11 +113,13 @@ static void edit_strings_in_place(cbor_item_t* it, int* budget) {
           if (h[0] < 0x80 && h[1] < 0x80) { h[0] = 0xc3; h[1] = 0xa9; }  /* two ASCII letters -> one two-byte scalar */
           else { h[0] = 'e'; h[1] = 'e'; }                               /* ... or the other way round (possibly invalidating the text) */
         }
-      } else
-        for (size_t i = 0; i < cbor_string_chunk_count(it); i++) edit_strings_in_place(cbor_string_chunks_handle(it)[i], budget);
+      } else {
+        struct cbor_indefinite_string_data* d = (struct cbor_indefinite_string_data*)it->data; /* (fields, not getters: see vt_raw) */
+        for (size_t i = 0; i < d->chunk_count; i++) edit_strings_in_place(d->chunks[i], budget);
+      }
       break;
-    case CBOR_TYPE_ARRAY: for (size_t i = 0; i < cbor_array_size(it); i++) edit_strings_in_place(cbor_array_handle(it)[i], budget); break;
-    case CBOR_TYPE_MAP: for (size_t i = 0; i < cbor_map_size(it); i++) { edit_strings_in_place(cbor_map_handle(it)[i].key, budget); edit_strings_in_place(cbor_map_handle(it)[i].value, budget); } break;
+    case CBOR_TYPE_ARRAY: for (size_t i = 0; i < it->metadata.array_metadata.end_ptr; i++) edit_strings_in_place(((cbor_item_t**)it->data)[i], budget); break;
+    case CBOR_TYPE_MAP: for (size_t i = 0; i < it->metadata.map_metadata.end_ptr; i++) { edit_strings_in_place(((struct cbor_pair*)it->data)[i].key, budget); edit_strings_in_place(((struct cbor_pair*)it->data)[i].value, budget); } break;
     case CBOR_TYPE_TAG: edit_strings_in_place(it->metadata.tag_metadata.tagged_item, budget); break;
     default: break;
   }
@@ -168,6 +170,7 @@ static void ro_case(cbor_item_t* it) {
 int main(int argc, char** argv) {
   if (argc < 3) return 2;
   va_install();
+  vt_raw = 1;       /* the tree is logged from its fields: no getter runs on it outside the protected brackets */
   vg_wild_half = 1; /* half-width items may hold values that are not exact in binary16: reading them must not "normalise" them */
   va_use_arena((size_t)1 << 28);
   struct sigaction sa;
